@@ -60,7 +60,7 @@ def connOf : Ev → Option Nat
   | .closeIdle _ => none
 
 /-- an event about another connection, or a group close, leaves a non-idle connection as it is -/
-theorem step_other (s s' : State) (e : Ev) (c : Nat) (st : St) (h : step s e = some s') (hg : get s c = some st)
+theorem step_other (f : TFacts) (s s' : State) (e : Ev) (c : Nat) (st : St) (h : step f s e = some s') (hg : get s c = some st)
     (hn : st ≠ .idle) (hc : connOf e ≠ some c) : get s' c = some st := by
   have mv : ∀ c' frm to, c' ≠ c → move s c' frm to = some s' → get s' c = some st := by
     intro c' frm to hne hm
@@ -84,8 +84,8 @@ theorem step_other (s s' : State) (e : Ev) (c : Nat) (st : St) (h : step s e = s
 
 /-- **closing_only_exits** — a connection that is `closing` (release refused, idle timer, group closed) stays closing
 until its run loop exits; no other event of that connection is possible -/
-theorem closing_only_exits (s s' : State) (e : Ev) (c : Nat) (hcl : get s c = some .closing)
-    (h : step s e = some s') :
+theorem closing_only_exits (f : TFacts) (s s' : State) (e : Ev) (c : Nat) (hcl : get s c = some .closing)
+    (h : step f s e = some s') :
     get s' c = some .closing ∨ (e = .exit c ∧ get s' c = some .exited) := by
   by_cases hc : connOf e = some c
   · right
@@ -96,25 +96,25 @@ theorem closing_only_exits (s s' : State) (e : Ev) (c : Nat) (hcl : get s c = so
       exact ⟨h2, by rw [get_set]; simp [hcl]⟩
     cases e <;> simp only [connOf, Option.some.injEq] at hc
     case new c' g => subst hc; simp [step, hcl] at h
-    case grab c' => subst hc; exact absurd (mv _ _ h).1 (by decide)
-    case recv c' => subst hc; exact absurd (mv _ _ h).1 (by decide)
-    case done c' ok nr => subst hc; exact absurd (mv _ _ h).1 (by decide)
-    case release c' k => subst hc; cases k <;> exact absurd (mv _ _ h).1 (by decide)
-    case remove c' => subst hc; exact absurd (mv _ _ h).1 (by decide)
+    case grab c' => subst hc; exact absurd (mv _ _ h).1 (by cases f.dropFailed <;> decide)
+    case recv c' => subst hc; exact absurd (mv _ _ h).1 (by cases f.dropFailed <;> decide)
+    case done c' ok nr => subst hc; exact absurd (mv _ _ h).1 (by cases f.dropFailed <;> decide)
+    case release c' k => subst hc; cases k <;> exact absurd (mv _ _ h).1 (by cases f.dropFailed <;> decide)
+    case remove c' => subst hc; exact absurd (mv _ _ h).1 (by cases f.dropFailed <;> decide)
     case exit c' => subst hc; exact ⟨rfl, (mv _ _ h).2⟩
     case closeIdle g => cases hc
-  · exact Or.inl (step_other s s' e c .closing h hcl (by decide) hc)
+  · exact Or.inl (step_other f s s' e c .closing h hcl (by decide) hc)
 
 /-- **released_refused_exits** — `releaseConn` refused (the group has been closed): the connection is `closing`, and
 by `closing_only_exits` the next event of that connection can only be `Exit` -/
-theorem released_refused_exits (s s' : State) (c : Nat) (h : step s (.release c false) = some s') :
+theorem released_refused_exits (f : TFacts) (s s' : State) (c : Nat) (h : step f s (.release c false) = some s') :
     get s' c = some .closing ∧
-    ∀ e s'', step s' e = some s'' → connOf e = some c → e = .exit c ∧ get s'' c = some .exited := by
+    ∀ e s'', step f s' e = some s'' → connOf e = some c → e = .exit c ∧ get s'' c = some .exited := by
   obtain ⟨⟨st, h1, _⟩, rfl⟩ := move_spec s s' c _ _ h
   have hcl : get (set s c .closing) c = some .closing := by rw [get_set]; simp [h1]
   refine ⟨hcl, ?_⟩
   intro e s'' hs hc
-  rcases closing_only_exits _ s'' e c hcl hs with hh | hh
+  rcases closing_only_exits f _ s'' e c hcl hs with hh | hh
   · -- an event of c that leaves it closing: impossible
     exfalso
     have mv : ∀ frm to, move (set s c .closing) c frm to = some s'' → frm.contains St.closing = true ∧ get s'' c = some to := by
@@ -124,17 +124,17 @@ theorem released_refused_exits (s s' : State) (c : Nat) (h : step s (.release c 
       exact ⟨h2', by rw [get_set]; simp [hcl]⟩
     cases e <;> simp only [connOf, Option.some.injEq] at hc
     case new c' g => subst hc; simp [step, hcl] at hs
-    case grab c' => subst hc; exact absurd (mv _ _ hs).1 (by decide)
-    case recv c' => subst hc; exact absurd (mv _ _ hs).1 (by decide)
-    case done c' ok nr => subst hc; exact absurd (mv _ _ hs).1 (by decide)
-    case release c' k => subst hc; cases k <;> exact absurd (mv _ _ hs).1 (by decide)
-    case remove c' => subst hc; exact absurd (mv _ _ hs).1 (by decide)
+    case grab c' => subst hc; exact absurd (mv _ _ hs).1 (by cases f.dropFailed <;> decide)
+    case recv c' => subst hc; exact absurd (mv _ _ hs).1 (by cases f.dropFailed <;> decide)
+    case done c' ok nr => subst hc; exact absurd (mv _ _ hs).1 (by cases f.dropFailed <;> decide)
+    case release c' k => subst hc; cases k <;> exact absurd (mv _ _ hs).1 (by cases f.dropFailed <;> decide)
+    case remove c' => subst hc; exact absurd (mv _ _ hs).1 (by cases f.dropFailed <;> decide)
     case exit c' => subst hc; have := (mv _ _ hs).2; rw [hh] at this; cases this
     case closeIdle g => cases hc
   · exact hh
 
 /-- an exited connection stays exited -/
-theorem exited_is_final (s s' : State) (e : Ev) (c : Nat) (hx : get s c = some .exited) (h : step s e = some s') :
+theorem exited_is_final (f : TFacts) (s s' : State) (e : Ev) (c : Nat) (hx : get s c = some .exited) (h : step f s e = some s') :
     get s' c = some .exited := by
   by_cases hc : connOf e = some c
   · exfalso
@@ -144,13 +144,13 @@ theorem exited_is_final (s s' : State) (e : Ev) (c : Nat) (hx : get s c = some .
       rw [hx] at h1; injection h1 with h1; subst h1; exact h2
     cases e <;> simp only [connOf, Option.some.injEq] at hc
     case new c' g => subst hc; simp [step, hx] at h
-    case grab c' => subst hc; exact absurd (mv _ _ h) (by decide)
-    case recv c' => subst hc; exact absurd (mv _ _ h) (by decide)
-    case done c' ok nr => subst hc; exact absurd (mv _ _ h) (by decide)
-    case release c' k => subst hc; cases k <;> exact absurd (mv _ _ h) (by decide)
-    case remove c' => subst hc; exact absurd (mv _ _ h) (by decide)
-    case exit c' => subst hc; exact absurd (mv _ _ h) (by decide)
+    case grab c' => subst hc; exact absurd (mv _ _ h) (by cases f.dropFailed <;> decide)
+    case recv c' => subst hc; exact absurd (mv _ _ h) (by cases f.dropFailed <;> decide)
+    case done c' ok nr => subst hc; exact absurd (mv _ _ h) (by cases f.dropFailed <;> decide)
+    case release c' k => subst hc; cases k <;> exact absurd (mv _ _ h) (by cases f.dropFailed <;> decide)
+    case remove c' => subst hc; exact absurd (mv _ _ h) (by cases f.dropFailed <;> decide)
+    case exit c' => subst hc; exact absurd (mv _ _ h) (by cases f.dropFailed <;> decide)
     case closeIdle g => cases hc
-  · exact step_other s s' e c .exited h hx (by decide) hc
+  · exact step_other f s s' e c .exited h hx (by decide) hc
 
 end KV.TransportConn
